@@ -12,8 +12,8 @@ CLAIMED = {
          "The layout traversal runs under random/PCT/round-robin schedules with 2-8 simulated workers and 1..N files per group; termination is decided by the scheduler's deadlock detector and step budget, lost work by the in-run mailbox invariant and by matching every cross-group send to a handle in the recorded history.",
          "SC interleavings only (Relaxed-ordering reorderings are not explored); sim-rayon models rayon's behaviours."),
  "C10": ("exploration", "seeded schedule simulation + parser for .eh_frame/.eh_frame_hdr checked against the generator's function model",
-         "For every simulated link of the graph family the output's .eh_frame_hdr count, ordering, FDE pointers and per-function FDE coverage are checked against the retained functions the model predicts.",
-         "Unwind info is GAS .cfi output with one CIE shape; personality/LSDA not generated."),
+         "For every simulated link of the graph family the output's .eh_frame_hdr count, ordering, FDE pointers, per-function FDE coverage, CIE personality pointers and FDE LSDA pointers are checked against the retained functions the model predicts.",
+         "Unwind info is GAS .cfi output: a plain CIE plus two zPLR CIEs (personality routine + per-function LSDA in .gcc_except_table, whose relocated pointers are checked); C++ programs through gcc -B in the real-program family."),
  "C23": ("exploration", "global invariant over every successful-by-model simulated link (graph, string and archive families) with allocation verification on a sample",
          "No simulated link of a valid generated input may fail with an allocation/size-accounting error, under any explored schedule, thread count or partitioning.",
          "Inputs are generated families; options that change generated sections are sampled, not enumerated."),
